@@ -126,6 +126,7 @@ func fieldMatching(val *Term, rec *types.Struct, comp *Term, auction bool) strin
 func checkC15(w *World, r *Report) {
 	r.Explanation = "Decides: (GEN-COVER) every collection field of keeper.Keeper is written in the call tree of genesis import and read in the call tree of export, or is a counter that import re-derives; (GEN-PAIR) every list of GenesisState is filled by export from a walk over one collection with the stored value unchanged, and import stores the elements of that list into the same collection; (GEN-DUPKEY) for each list, the fields GenesisState.Validate builds its duplicate-detection key from are exactly the record fields that form the collection's store key (derived from the keeper's own Set sites), so a state that the store can hold is never rejected as a duplicate and two records the store would merge are; (KV-AGREE) import stores each record under the key built from the record's own fields (or sets the record's id to the key first)."
 	r.NotDecided = "per-object Validate acceptance of every reachable value (e.g. vesting schedules re-validated against an extended last end time); lock-step behavioural equivalence after re-import."
+	checkModuleIface(w, r, "MOD-IFACE", "InitGenesis", "ExportGenesis", "ValidateGenesis", "DefaultGenesis")
 	r.Rule("GEN-COVER", "every collection round-trips through genesis or is a derived counter", 8)
 	r.Rule("GEN-PAIR", "each genesis list is exported from and imported into the same collection", 4)
 	r.Rule("GEN-DUPKEY", "Validate's duplicate key = the store key's fields", 4)
